@@ -231,6 +231,8 @@ def build(u):
     u.fn(LEX, r'^fn _block_comment\(', name='_block_comment', edits=[D13],
          requires=['1 <= args.offset <= blen(&args)', 'blen(&args) <= isize::MAX', 'start_len <= args.offset',
                    '0x20 < first(&args) < 0x80',
+                   # the text quoted by the warning starts at the opener, which has to be a character boundary
+                   'is_char_boundary(args.input.spec_bytes(), args.offset - start_len)',
                    'match end_offset { Some(e) => args.offset <= e <= blen(&args) && is_char_boundary(args.input.spec_bytes(), e as int), None => true }'],
          ensures=['sub_ok(&args, r)',
                   'match end_offset {'
@@ -252,7 +254,7 @@ def build(u):
                   else 'r.0 > args.offset && args.input.spec_bytes()[r.0 - 1] == 0x7d')
         none_ = ('no_pair(tail(&args), blen(&args) - args.offset, 0x2a, 0x29)' if kind_ == 'ParenStar' else 'no_byte(tail(&args), blen(&args) - args.offset, 0x7d)')
         u.fn(LEX, r'^fn %s\(args: LexArgs\)' % nm, name=nm, edits=[D3_COPY],
-             requires=['at_tok(&args)', 'first(&args) == %s' % fb, 'args.offset >= %d' % sl],
+             requires=['at_tok(&args)', 'first(&args) == %s' % fb, 'args.offset >= %d' % sl] + (['args.input.spec_bytes()[args.offset - 2] == 0x28'] if sl == 2 else []),
              ensures=['sub_ok(&args, r)', 'r.1 is Comment',
                       # terminated: ends directly after the first closer; the kind says whether it holds a line feed / starts its line
                       '!(%s) ==> %s && %s' % (none_, closer, clause),
@@ -285,7 +287,7 @@ fn head_contains_line_break(input: &str, offset: usize) -> (r: bool)
     u.stub(LEX, r'^fn compiler_directive\(args: LexArgs, kind: BlockCommentKind\)', name='compiler_directive', kx='lexcomplex::compiler_directive',
            requires=['at_tok(&args)'], ensures=['sub_ok(&args, r)'])
 
-    for nm, extra in (('compiler_directive_or_comment_alt', ['first(&args) == 0x2a', 'args.offset >= 2']), ('compiler_directive_or_comment', ['first(&args) == 0x7b'])):
+    for nm, extra in (('compiler_directive_or_comment_alt', ['first(&args) == 0x2a', 'args.offset >= 2', 'args.input.spec_bytes()[args.offset - 2] == 0x28']), ('compiler_directive_or_comment', ['first(&args) == 0x7b'])):
         u.fn(LEX, r'^fn %s\(args: LexArgs\)' % nm, name=nm, requires=['at_tok(&args)'] + extra, ensures=['sub_ok(&args, r)'], opens_with=PRO)
     opfn('l_paren', '0x28', [
         two_char('0x2e', 'TT::Op(OK::LBrack)'),
@@ -370,7 +372,9 @@ proof fn lemma_dec_step(s: Seq<u8>, o: int)
          ])
     u.assume('D8: reference patterns `Some(&b\'e\' | b\'E\')` on Option<&u8> rewritten to `Some(b\'e\' | b\'E\')` (default binding modes: same match semantics); Verus rejects the mixed form')
     # asm string literal "..." with backslash escapes; ends at the closing quote, or before a line break / at the end
-    u.stub(LEX, r'^fn warn_unterminated\(', name='warn_unterminated')
+    # warn_unterminated slices `&input[start_offset..]`: the slice panics unless start_offset is a character boundary inside the text
+    u.stub(LEX, r'^fn warn_unterminated\(', name='warn_unterminated',
+           requires=['start_offset <= input.spec_bytes().len()', 'is_char_boundary(input.spec_bytes(), start_offset as int)'])
     u.fn(LEX, r'^fn asm_text_literal\(mut args: LexArgs\)', name='asm_text_literal', rebind_mut=('args', 'args0'),
          requires=['at_tok(&args0)'],
          ensures=['sub_ok(&args0, r)',
